@@ -190,6 +190,12 @@ func c05cdx(maxN int, variants bool) {
 	mk := func() *rt.Stream { return rt.NewJSONStream(doc) }
 	p := c05parse(mk(), "")
 	if !p.ok {
+		// auto-detection equals the explicit format also in refusing: a document the stated format parses must not
+		// be refused when detected
+		if variants {
+			explicit := map[string]formats.Format{"1.5": formats.CDX15JSON, "1.4": formats.CDX14JSON, "1.3": formats.CDX13JSON}[version]
+			rt.Assert(!c05parse(mk(), explicit).ok, "C05.cdx.explicit")
+		}
 		return
 	}
 	rt.Assert(nonEmptyIDs(p), "C05.cdx.nonempty")
